@@ -114,6 +114,21 @@ type c04State struct {
 	ver  trie.TrieLayout
 	done []c04Persisted
 	np   int
+	// aliasHit: a child trie was modified while another child trie had exactly the same contents
+	// (the two then share one in-memory trie object, keyed by root hash) - shape of a known finding
+	aliasHit bool
+}
+
+func (s *c04State) noteAlias(c []byte) {
+	mine := s.m.children[string(c)]
+	if len(mine) == 0 {
+		return
+	}
+	for name, ch := range s.m.children {
+		if name != string(c) && len(ch) > 0 && string(ch.Canon()) == string(mine.Canon()) {
+			s.aliasHit = true
+		}
+	}
 }
 
 type c04Op struct {
@@ -135,8 +150,8 @@ func (o c04Op) Name() string {
 	return o.kind
 }
 
-var c04Keys = [][]byte{{0x01}, {0x01, 0x00}, {0x10}}
-var c04Probes = [][]byte{{0x02}, {0x01, 0x01}, {0x00}, {0x10, 0x00}, {}}
+var c04Keys = [][]byte{{0x01}, {0x01, 0x00}, {0x15, 0x00}, {0x15, 0x23}}
+var c04Probes = [][]byte{{0x02}, {0x01, 0x01}, {0x00}, {0x23}, {0x15}, {}}
 var c04ChildKeys = [][]byte{{0x01}, {0x02}}
 
 func c04CheckLoaded(s *c04State, p c04Persisted) string {
@@ -184,7 +199,13 @@ func c04CheckLoaded(s *c04State, p c04Persisted) string {
 		w, ok := want[string(k)]
 		switch {
 		case !ok && got != nil:
-			return fmt.Sprintf("GetFromDB(%x): absent key read as %s; state %s", k, vValName(got), vMapString(want))
+			shape := "absent key read as"
+			for k2, v2 := range want {
+				if k2 != string(k) && bytes.HasPrefix(vNibbles([]byte(k2)), vNibbles(k)) && bytes.Equal(v2, got) {
+					shape = "absent key that prefixes a present key read as that key's value"
+				}
+			}
+			return fmt.Sprintf("GetFromDB(%x): %s %s; state %s", k, shape, vValName(got), vMapString(want))
 		case ok && (got == nil || !bytes.Equal(got, w)):
 			hashed := ""
 			if bytes.Equal(got, ref.Blake256(w)) {
@@ -242,6 +263,7 @@ func c04Explore(r *verifmc.Report, ver trie.TrieLayout, depth int) {
 				}
 				delete(s.m.main, string(o.k))
 			case "putChild":
+				s.noteAlias(o.c)
 				if err := s.t.PutIntoChild(o.c, o.k, o.v); err != nil {
 					return "PutIntoChild: " + err.Error()
 				}
@@ -250,6 +272,7 @@ func c04Explore(r *verifmc.Report, ver trie.TrieLayout, depth int) {
 				}
 				s.m.children[string(o.c)][string(o.k)] = o.v
 			case "clearChild":
+				s.noteAlias(o.c)
 				if err := s.t.ClearFromChild(o.c, o.k); err != nil {
 					return "ClearFromChild: " + err.Error()
 				}
@@ -279,10 +302,19 @@ func c04Explore(r *verifmc.Report, ver trie.TrieLayout, depth int) {
 					if len(ch) == 0 {
 						continue
 					}
-					got, err := s.t.GetFromChild([]byte(name), k)
+					var got []byte
+					var err error
+					panicked, msg := verifmc.Guard(func() { got, err = s.t.GetFromChild([]byte(name), k) })
 					w, ok := ch[string(k)]
-					if err != nil || (ok && !bytes.Equal(got, w)) || (!ok && got != nil) {
-						return fmt.Sprintf("InMemory: child %s key %x reads %x err %v, model %x (present %t)", name, k, got, err, w, ok)
+					if panicked || err != nil || (ok && !bytes.Equal(got, w)) || (!ok && got != nil) {
+						shape := "InMemoryChild"
+						if s.aliasHit {
+							shape = "InMemoryChildAliased"
+						}
+						if panicked {
+							msg = strings.SplitN(msg, "\n", 2)[0]
+						}
+						return fmt.Sprintf("%s: child %s key %x reads %x err %v %s, model %x (present %t)", shape, name, k, got, err, msg, w, ok)
 					}
 				}
 			}
@@ -311,7 +343,7 @@ func c04Explore(r *verifmc.Report, ver trie.TrieLayout, depth int) {
 				ks = append(ks, fmt.Sprintf("%x=%x", k, v))
 			}
 			sort.Strings(ks)
-			fmt.Fprintf(&b, " db=%d:%x", len(ks), ref.Blake256([]byte(strings.Join(ks, ","))))
+			fmt.Fprintf(&b, " db=%d:%x alias=%t", len(ks), ref.Blake256([]byte(strings.Join(ks, ","))), s.aliasHit)
 			b.WriteString(s.m.canon())
 			for _, p := range s.done {
 				fmt.Fprintf(&b, " P%x:%s", p.root[:4], p.m.canon())
@@ -330,6 +362,8 @@ func c04Explore(r *verifmc.Report, ver trie.TrieLayout, depth int) {
 			switch {
 			case strings.Contains(desc, "that is the BLAKE2b-256 hash of the value"):
 				detail = ":returns-hash-of-hashed-value"
+			case strings.Contains(desc, "absent key that prefixes a present key"):
+				detail = ":absent-key-returns-value-of-a-key-it-prefixes"
 			case strings.Contains(desc, "absent key read as"):
 				detail = ":absent-key-read-as-present"
 			case strings.Contains(desc, "child trie") && strings.Contains(desc, "not readable"):
@@ -351,7 +385,7 @@ func TestVerif_C04(t *testing.T) {
 	r := verifmc.NewReport("C04", "persist-reload", "model_checking")
 	defer r.Write()
 	depth := verifmc.Pick(4, 5)
-	r.Rule = fmt.Sprintf("BFS (depth %d, V0 and V1) over put/delete on 3 main keys with 1/32/33-byte values, putChild/clearChild on 2 child tries, and up to 3 persists (WriteDirty into a map-backed database then Snapshot); after every operation every persisted root is reloaded into a fresh trie (root, entries, child tries compared with the model) and read key by key with GetFromDB (3 present-able keys + 5 absent probes)", depth)
+	r.Rule = fmt.Sprintf("BFS (depth %d, V0 and V1) over put/delete on 4 main keys (01, 0100, 1500, 1523) with 1/32/33-byte values, putChild/clearChild on 2 child tries, and up to 3 persists (WriteDirty into a map-backed database then Snapshot); after every operation every persisted root is reloaded into a fresh trie (root, entries, child tries compared with the model) and read key by key with GetFromDB (4 keys + 6 absent probes incl. 23, which diverges inside the partial key of the branch of 1500/1523)", depth)
 	for _, ver := range []trie.TrieLayout{trie.V0, trie.V1} {
 		c04Explore(r, ver, depth)
 	}
